@@ -1,14 +1,15 @@
 #!/bin/bash
+V=${VERIF_ROOT:-/verif}
 # tryharmless.sh <name> [checks...]: run checks (default: all) against a private clone of /repo with a behaviour-preserving
-# rewrite from /verif/harmless/<name>/patch.diff applied. Every check is expected to stay quiet.
+# rewrite from $V/harmless/<name>/patch.diff applied. Every check is expected to stay quiet.
 set -u
 name=$1; shift
 checks=${*:-C01 C02 C03 C04 C05 C06 C07 C08 C09 C10 C11 C12 C13 C14 C15 C16 C17 C18 C19 C20}
 W=/tmp/tryharm-$name
 rm -rf $W; git clone -q /repo $W/repo || exit 2
-git -C $W/repo apply /verif/harmless/$name/patch.diff || { echo "[$name] patch does not apply"; rm -rf $W; exit 2; }
+git -C $W/repo apply $V/harmless/$name/patch.diff || { echo "[$name] patch does not apply"; rm -rf $W; exit 2; }
 mkdir -p $W/build
-for c in $checks; do VERIF_REPO=$W/repo VERIF_BUILD=$W/build /verif/check $c | grep -v KNOWN-FINDING | grep -v "^OK" | sed "s/^/[$name] /"; done
+for c in $checks; do VERIF_REPO=$W/repo VERIF_BUILD=$W/build $V/check $c | grep -v KNOWN-FINDING | grep -v "^OK" | sed "s/^/[$name] /"; done
 mkdir -p /tmp/tryharm-keep/$name; cp -r $W/build/evidence/replay /tmp/tryharm-keep/$name/ 2>/dev/null
 rm -rf $W
 echo "[$name] done"
